@@ -97,6 +97,9 @@ func (h *HistGen) Doc(id string) map[string]interface{} {
 	if h.G.pick(12) == 0 {
 		m["arr"] = []interface{}{h.val(), h.val()}
 	}
+	if h.G.pick(25) == 0 {
+		m["_expiresAt"] = boundaryTimes()[3+h.G.pick(7)] // an expiration time (any other type is refused by Validate)
+	}
 	if id != "" && h.G.pick(10) == 0 {
 		m["y"] = id // a field holding the document's own id (criteria on _id with a reference to it select the document)
 	}
